@@ -128,6 +128,62 @@ Section C05.
   Proof. exact (phase2_ok hstate compute cache_on ims_on negotiate rules_of dbg). Qed.
 End C05.
 
+(** ---- connection with C03 ---- *)
+Section C05_C03.
+  Variable hstate : Type.
+  Variable compute : hstate -> request -> bool -> fat * hstate * list bytes.
+  Variable cache_on : bool.
+  Variable ims_on : bool.
+  Variable parse_ims : bytes -> option Z.
+  Variable sanitize_ok : request -> bool.
+  Variable prime : request -> request.
+  Variable negotiate : request -> fat -> option (N * bytes).
+  Variable rules_of : bytes -> list rule.
+  Variable dbg : bool.
+  (** handlers set no [vary] header of their own (Model/Cache.v appends the cache's header, the code replaces) *)
+  Hypothesis Hnovary : forall hs r ok, assoc (B "vary") (f_headers (fst (fst (compute hs r ok)))) = None.
+
+  (** the server with sorted variant vectors and binary search (Model/Vary.v) and the server of Model/Cache.v
+      (C03/C04: variants as an association list, first match), instantiated with
+      [vary_tuple := transformed values of the page's rules] and [vary_header := the header [get_header] builds],
+      produce the same observations for every history from related states; so every theorem of C03/C04 about
+      Model/Cache.v holds of the vector server *)
+  Theorem vector_refines_assoc_list : forall ops cV c hs now,
+    InvV hstate compute rules_of cV -> cache_rel rules_of cV c ->
+    exists l,
+      runV hstate compute cache_on ims_on parse_ims sanitize_ok prime negotiate rules_of dbg (cV, hs) now ops = Ok l /\
+      map fst l = run hstate compute cache_on ims_on parse_ims sanitize_ok prime negotiate
+                      (vary_tuple_of rules_of) (vary_header_of rules_of) (c, hs) now ops.
+  Proof. exact (run_rel hstate compute cache_on ims_on parse_ims sanitize_ok prime negotiate rules_of dbg Hnovary). Qed.
+
+  (** C03's handler contract with the vary tuple made concrete *)
+  Variable cf : request -> bool -> fat.
+  Hypothesis Hpure : forall hs r ok, fst (fst (compute hs r ok)) = cf r ok.
+  Hypothesis contract : forall r r',
+    get_or_head (rq_method r) = true -> get_or_head (rq_method r') = true ->
+    vary_tuple_of rules_of r = vary_tuple_of rules_of r' -> rq_path r = rq_path r' ->
+    (qm (cf r true) = true -> path_query r = path_query r') ->
+    cf r true = cf r' true.
+  Hypothesis pref_uniform : forall r r', rq_path r = rq_path r' -> qm (cf r true) = qm (cf r' true).
+  Hypothesis Herr : forall r, f_spref (cf r false) = SP_NONE.
+
+  (** ... in particular C03's transparency: a handler whose response depends on the request only through
+      method class, path, (query) and the *transformed* header values gets, from the caching server with
+      vectors, exactly the replies the cache-less server gives — each client receives the response for its own
+      transformed values, for every history *)
+  Theorem vary_cache_transparent : forall ops hs hsU now,
+    Forall (op_no_ims ims_on prime) ops ->
+    exists l,
+      runV hstate compute true ims_on parse_ims sanitize_ok prime negotiate rules_of dbg ([], hs) now ops = Ok l /\
+      Forall2 obs_equiv (map fst l)
+        (run hstate compute false ims_on parse_ims sanitize_ok prime negotiate (vary_tuple_of rules_of) (vary_header_of rules_of)
+             ([], hsU) now ops).
+  Proof.
+    exact (vary_transparent hstate compute ims_on parse_ims sanitize_ok prime negotiate rules_of dbg Hnovary
+             cf Hpure contract pref_uniform Herr).
+  Qed.
+End C05_C03.
+
 (** (6) before the repair (model component vary.run_v0): the stale position makes [Vec::insert] panic
     when the entry was replaced by a shorter one, and breaks the order otherwise — after which a cached
     variant is missed, recomputed and stored twice.  Both observed on the real code before the fix. *)
@@ -182,3 +238,19 @@ Example ex_vary_header :
                                         (own_tuple (fun _ => ex_rules) (ex_req [])) true true))
   = Some (B "accept-encoding, range, x-a, X-Up, x bad").
 Proof. vm_compute. reflexivity. Qed.
+
+(** the hypotheses of [vector_refines_assoc_list] / [vary_cache_transparent] are satisfiable
+    (a handler that ignores everything but the sanitize verdict) *)
+Definition ex_cf (r : request) (ok : bool) : fat :=
+  if ok then mkFat 200 [] (B "page") SP_FULL true else mkFat 400 [] (B "bad") SP_NONE true.
+Definition ex_compute2 (hs : N) (r : request) (ok : bool) : fat * N * list bytes := (ex_cf r ok, hs + 1, []).
+Example ex_contract :
+  (forall hs r ok, assoc (B "vary") (f_headers (fst (fst (ex_compute2 hs r ok)))) = None) /\
+  (forall hs r ok, fst (fst (ex_compute2 hs r ok)) = ex_cf r ok) /\
+  (forall r r', ex_cf r true = ex_cf r' true) /\
+  (forall r, f_spref (ex_cf r false) = SP_NONE) /\
+  cache_rel (fun _ => ex_rules) [] [].
+Proof.
+  split; [intros hs r [|]; reflexivity|]. split; [reflexivity|]. split; [reflexivity|]. split; [reflexivity|].
+  apply cache_rel_nil.
+Qed.
